@@ -19,8 +19,11 @@ Standard-library pieces that are NOT modelled and appear as parameters or side c
   * `mime.ParseMediaType` (+ `mergeMultiline`, the non-ASCII strip of `ParseMIMEType`): the oracle
     `ct : Bytes → CT` from the raw bytes of the first `Content-Type` value to the classification
     `load` / `handleEmbeddedParts` branch on.  All theorems hold for every oracle.
-  * `strings.ToLower` / `strings.ToUpper` on the *requested* field names (arbitrary client strings):
-    the model uses the ASCII versions; the tie only generates ASCII field names.
+  * `unicode.ToLower` / `unicode.ToUpper` beyond the runes listed at `goCase`: `strings.ToLower` /
+    `strings.ToUpper` on the *requested* field names (arbitrary client strings) are modelled rune by rune
+    (UTF-8 decoding as `utf8.DecodeRune`, ill-formed bytes become U+FFFD as in `strings.Map`) with the case
+    pairs of ASCII plus the four non-ASCII runes whose image is ASCII (U+0130 -> i, U+212A -> k, U+0131 -> I,
+    U+017F -> S); every other non-ASCII rune is treated as caseless (the tie only generates caseless ones).
 Standard-library pieces that ARE modelled: `textproto.CanonicalMIMEHeaderKey` (`canonKey`),
 `bytes.TrimSpace(x) == ""` (`isSpaceOnly`, Unicode White_Space on UTF-8), `bytes.Trim(line, "\r\n") == ""`,
 `bytes.Index` (`indexOf`), `fmt` `%v` of an int (`dec`).
@@ -39,6 +42,72 @@ def lowerByte (c : UInt8) : UInt8 := if 65 ≤ c && c ≤ 90 then c + 32 else c
 def upperByte (c : UInt8) : UInt8 := if 97 ≤ c && c ≤ 122 then c - 32 else c
 def lowerBytes (b : Bytes) : Bytes := b.map lowerByte
 def upperBytes (b : Bytes) : Bytes := b.map upperByte
+
+/-! ## strings.ToLower / strings.ToUpper on client strings (requested field names, section names) -/
+
+def isCont (c : UInt8) : Bool := 0x80 ≤ c && c ≤ 0xBF
+
+/-- `utf8.DecodeRune` at the front of a non-empty byte string: `some (rune, width)` for a well-formed
+    sequence (the `first` / `acceptRanges` tables of unicode/utf8: no overlong forms, no surrogates, at most
+    U+10FFFF), `none` for `(RuneError, 1)` -/
+def decodeRune : Bytes → Option (Nat × Nat)
+  | [] => none
+  | a :: tl =>
+    if a < 0x80 then some (a.toNat, 1)
+    else if 0xC2 ≤ a && a ≤ 0xDF then
+      match tl with
+      | b :: _ => if isCont b then some ((a.toNat - 0xC0) * 64 + (b.toNat - 0x80), 2) else none
+      | _ => none
+    else if 0xE0 ≤ a && a ≤ 0xEF then
+      match tl with
+      | b :: c :: _ =>
+        let lo : UInt8 := if a == 0xE0 then 0xA0 else 0x80
+        let hi : UInt8 := if a == 0xED then 0x9F else 0xBF
+        if lo ≤ b && b ≤ hi && isCont c then
+          some ((a.toNat - 0xE0) * 4096 + (b.toNat - 0x80) * 64 + (c.toNat - 0x80), 3)
+        else none
+      | _ => none
+    else if 0xF0 ≤ a && a ≤ 0xF4 then
+      match tl with
+      | b :: c :: d :: _ =>
+        let lo : UInt8 := if a == 0xF0 then 0x90 else 0x80
+        let hi : UInt8 := if a == 0xF4 then 0x8F else 0xBF
+        if lo ≤ b && b ≤ hi && isCont c && isCont d then
+          some ((a.toNat - 0xF0) * 262144 + (b.toNat - 0x80) * 4096 + (c.toNat - 0x80) * 64 + (d.toNat - 0x80), 4)
+        else none
+      | _ => none
+    else none
+
+/-- `utf8.AppendRune` for a rune that `decodeRune` can yield (or U+FFFD) -/
+def encodeRune (r : Nat) : Bytes :=
+  if r < 0x80 then [UInt8.ofNat r]
+  else if r < 0x800 then [UInt8.ofNat (0xC0 + r / 64), UInt8.ofNat (0x80 + r % 64)]
+  else if r < 0x10000 then [UInt8.ofNat (0xE0 + r / 4096), UInt8.ofNat (0x80 + r / 64 % 64), UInt8.ofNat (0x80 + r % 64)]
+  else [UInt8.ofNat (0xF0 + r / 262144), UInt8.ofNat (0x80 + r / 4096 % 64), UInt8.ofNat (0x80 + r / 64 % 64),
+        UInt8.ofNat (0x80 + r % 64)]
+
+/-- `unicode.ToLower` (`up = false`) / `unicode.ToUpper` (`up = true`), exact on ASCII, on the four non-ASCII
+    runes whose image is ASCII and on caseless runes; every other rune is mapped to itself -/
+def caseRune (up : Bool) (r : Nat) : Nat :=
+  if up then
+    if 97 ≤ r && r ≤ 122 then r - 32 else if r == 0x131 then 73 else if r == 0x17F then 83 else r
+  else
+    if 65 ≤ r && r ≤ 90 then r + 32 else if r == 0x130 then 105 else if r == 0x212A then 107 else r
+
+/-- `strings.Map(unicode.ToLower / ToUpper, s)`: rune by rune; an ill-formed byte becomes U+FFFD (EF BF BD).
+    (The ASCII fast path of `strings.ToLower` gives the same bytes.) -/
+def goCaseLoop (up : Bool) : Nat → Bytes → Bytes
+  | 0, _ => []
+  | _, [] => []
+  | fuel + 1, a :: tl =>
+    match decodeRune (a :: tl) with
+    | none => [0xEF, 0xBF, 0xBD] ++ goCaseLoop up fuel tl
+    | some (r, w) => encodeRune (caseRune up r) ++ goCaseLoop up fuel (tl.drop (w - 1))
+
+/-- `strings.ToLower(s)` -/
+def goLower (b : Bytes) : Bytes := goCaseLoop false b.length b
+/-- `strings.ToUpper(s)` -/
+def goUpper (b : Bytes) : Bytes := goCaseLoop true b.length b
 
 /-! ## Split (parser.go) -/
 
@@ -595,7 +664,7 @@ def fetchBodySection (ct : Bytes → CT) (lit : Bytes) (sec : BodySection) : Exc
         let h := r.headerBytes lit
         match parseEntries h with
         | .error e => .error (.header e)
-        | .ok es => .ok (fieldsOf negate (names.map lowerBytes) h es)
+        | .ok es => .ok (fieldsOf negate (names.map goLower) h es)      -- wantFields[strings.ToLower(field)]
 
 def intercalate (sep : Bytes) : List Bytes → Bytes
   | [] => []
@@ -614,7 +683,7 @@ def renderSection (sec : BodySection) : Bytes :=
     | .text => [[84, 69, 88, 84]]
     | .fields negate names =>
       [(if negate then [72, 69, 65, 68, 69, 82, 46, 70, 73, 69, 76, 68, 83, 46, 78, 79, 84, 32, 40] else [72, 69, 65, 68, 69, 82, 46, 70, 73, 69, 76, 68, 83, 32, 40]) ++ intercalate [32] names ++ [41]]
-  upperBytes (intercalate [46] (parts ++ txt))
+  goUpper (intercalate [46] (parts ++ txt))      -- strings.ToUpper(strings.Join(res, "."))
 
 def BodySection.isNil (sec : BodySection) : Bool :=
   sec.path.isEmpty && (match sec.text with | .none => true | _ => false)
